@@ -343,6 +343,7 @@ mod test {
 #[cfg(feature = "verif-hooks")]
 #[doc(hidden)]
 pub mod verif_hooks {
+  pub use super::match_node::verif_hooks::{match_children_end, match_children_env};
   use super::*;
   use crate::matcher::PatternNode;
 
